@@ -479,8 +479,12 @@ impl<'a, 'o, 'c> CommonMarkFormatter<'a, 'o, 'c> {
                 let list_number = *last_stack;
                 if entering {
                     *last_stack += 1;
-                };
-                list_number
+                    list_number
+                } else {
+                    // The marker written on entry used the number before the
+                    // increment; use the same one to restore the prefix.
+                    list_number - 1
+                }
             } else {
                 match node.data.borrow().value {
                     NodeValue::Item(ref ni) => ni.start,
